@@ -17,14 +17,18 @@ def _td():
     return _TD["td"]
 
 
-def make_invariant(data):
+def make_invariant(data, independent=False):
     def inv(t_before, ev, t, depth):
         probs = wellformed(t, editbfs.expected_data(t_before, ev))
         if probs:
             return ["malformed: " + "; ".join(probs[:3])]
-        return editbfs.fresh_equal_problems(t, data, _td(), 1e-9 * (1 + depth))
+        return editbfs.fresh_equal_problems(t, data, _td(), 1e-9 * (1 + depth), independent=independent)
 
     return inv
+
+
+def make_invariant_independent(data):
+    return make_invariant(data, independent=True)
 
 
 def runs(tier, seed):
@@ -35,14 +39,22 @@ def runs(tier, seed):
                 dict(n=3, dims=2, grid=3, kind="seeded", depth=4, cap=None, outlier=0.2),
                 # duplicated mutations: byte-identical sibling vectors (memo keys must keep multiplicities apart)
                 dict(n=3, dims=1, grid=3, kind="dup", depth=5, cap=None),
-                dict(n=4, dims=1, grid=3, kind="dup", depth=5, cap=None, full_only=True)]
+                dict(n=4, dims=1, grid=3, kind="dup", depth=5, cap=None, full_only=True),
+                # the fresh build on emptied memo tables (it cannot inherit what the history left there), also beyond the
+                # 1000-point switch of the recursion's algorithm
+                dict(n=3, dims=1, grid=4, kind="generic", depth=5, cap=None, independent=True),
+                dict(n=3, dims=2, grid=1000, kind="peaked", depth=4, cap=None, independent=True),
+                dict(n=4, dims=1, grid=1001, kind="peaked", depth=4, cap=None, independent=True, full_only=True)]
     return [dict(n=3, dims=1, grid=4, kind="generic", depth=12, cap=None),
             dict(n=3, dims=2, grid=3, kind="seeded", depth=12, cap=None, outlier=0.2),
             dict(n=4, dims=2, grid=3, kind="peaked", depth=6, cap=400000),
             dict(n=4, dims=1, grid=4, kind="generic", depth=5, cap=None, outlier=0.2),
             dict(n=3, dims=1, grid=3, kind="dup", depth=12, cap=None),
             dict(n=4, dims=1, grid=3, kind="dup", depth=6, cap=None, full_only=True),
-            dict(n=4, dims=1, grid=3, kind="generic", depth=7, cap=600000, full_only=True)]
+            dict(n=4, dims=1, grid=3, kind="generic", depth=7, cap=600000, full_only=True),
+            dict(n=3, dims=1, grid=4, kind="generic", depth=8, cap=None, independent=True),
+            dict(n=3, dims=2, grid=1000, kind="peaked", depth=6, cap=None, independent=True),
+            dict(n=4, dims=1, grid=1001, kind="peaked", depth=5, cap=None, independent=True, full_only=True)]
 
 
 def run_one(chk, r, seed, pid="C06", make_inv=make_invariant, grammar_kw=None):
@@ -51,6 +63,8 @@ def run_one(chk, r, seed, pid="C06", make_inv=make_invariant, grammar_kw=None):
     if r.get("full_only"):
         gk["moves_on_full_only"] = True
     g = editbfs.Grammar(data, **gk)
+    if r.get("independent") and make_inv is make_invariant:
+        make_inv = make_invariant_independent
     res = editbfs.bfs(g, make_inv(data), r["depth"], max_states=r["cap"])
     chk.n_states_extra += res["states"]
     chk.transitions += res["transitions"]
@@ -295,6 +309,8 @@ def replay(path, make_inv=make_invariant):
     except Exception as e:
         print("edit raised", type(e).__name__, e)
         return 1
+    if r.get("independent") and make_inv is make_invariant:
+        make_inv = make_invariant_independent
     probs = make_inv(data)(t, ev, nt, len(hist) + 1)
     print("problems:", probs)
     return 1 if probs else 0
